@@ -631,4 +631,25 @@ def mpz_to_rint (n : Nat) (z : Int) : RU n := if z < 0 then neg (mpz_to_ruint n 
 /-- `rint_to_mpz(a, b)` -/
 def rint_to_mpz (b : RU n) : Int := if isNegative b then -(ruint_to_mpz (neg b)) else ruint_to_mpz b
 
+/-! ### mixed operands: `ruint<K>` (and `rint<K>` through its `Value`) ⊗ built-in scalar, after fixes/C06_11…14
+    The scalar is an `Int` (its C++ value); every built-in integral type has `|w| ≤ 2^64 - 1`, so the magnitude is a limb. -/
+/-- `__recint_mag(c)` for a negative scalar: `limb(0) - limb(c)` -/
+def smag (w : Int) : Nat := (-w).toNat
+/-- `a + c`, `c + a`, `a += c`, `add(a, b, c)`, `add(a, c)`: a negative scalar subtracts its magnitude -/
+def add_s (a : RU n) (w : Int) : RU n := if w < 0 then (sub_l a (smag w)).1 else (add_l a w.toNat).1
+/-- `a - c`, `a -= c`, `sub(a, b, c)`, `sub(a, c)` -/
+def sub_s (a : RU n) (w : Int) : RU n := if w < 0 then (add_l a (smag w)).1 else (sub_l a w.toNat).1
+/-- `c - a`: `sub(a, b, c); return -a` -/
+def rsub_s (a : RU n) (w : Int) : RU n := neg (sub_s a w)
+/-- `a * c`, `c * a`, `a *= c`, `mul(a, b, c)`, `mul(a, c)`: a negative scalar negates the product by its magnitude -/
+def mul_s (a : RU n) (w : Int) : RU n := if w < 0 then neg (mul_l a (smag w)) else mul_l a w.toNat
+/-- `cmp(a, c)` for a signed or unsigned scalar -/
+def cmp_s (a : RU n) (w : Int) : Int := if w < 0 then 1 else cmp_l a w.toNat
+/-- `a / c`, `a /= c`, `div_q(q, a, c)`: `ruint bb(|c|); div(q, r, a, bb)`, negated for a negative scalar -/
+def divq_s (t : Nat) (a : RU n) (w : Int) : RU n :=
+  if w < 0 then neg (div t a (ofLimb n (smag w))).1 else (div t a (ofLimb n w.toNat)).1
+/-- `a % c`, `a %= c`, `div_r(r, a, c)`: the remainder of the division by the magnitude -/
+def mod_s (t : Nat) (a : RU n) (w : Int) : RU n :=
+  if w < 0 then (div t a (ofLimb n (smag w))).2 else (div t a (ofLimb n w.toNat)).2
+
 end Givaro.Model.RecInt
